@@ -115,6 +115,14 @@ def _render(unit, tmpl, ex):
     return render.render(text, REPO, ex)
 
 
+def _is_json(l):
+    try:
+        json.loads(l)
+        return True
+    except Exception:
+        return False
+
+
 def run_verus(unit, spec, pid, bdir, ex):
     """spec: unit['verus'] = {template, obligations:{fn: meaning}, properties:[..]}"""
     obls = {}
@@ -132,8 +140,23 @@ def run_verus(unit, spec, pid, bdir, ex):
     modname = 'dv_' + unit['name']
     f = os.path.join(bdir, modname + '.rs')
     open(f, 'w').write(text)
-    rc, out, err, wall, to = sh(['verus', f, '--output-json', '--time', '--error-format=json'] + spec.get('flags', []),
-                                cwd=bdir, timeout=spec.get('timeout', 300))
+    rounds = 0
+    while True:
+        rc, out, err, wall, to = sh(['verus', f, '--output-json', '--time', '--error-format=json'] + spec.get('flags', []),
+                                    cwd=bdir, timeout=spec.get('timeout', 300))
+        # a refactor may have moved part of an extracted function into a new helper / constant / field:
+        # same on-demand extraction as for the Kani crates (retry while it finds something new)
+        msgs = ' '.join(json.loads(l).get('message', '') for l in err.splitlines() if l.strip().startswith('{') and '"message"' in l
+                        and _is_json(l))
+        if rounds < 4 and not to and ('"encountered-vir-error": true' in out or '"encountered-error": true' in out) and auto_extract(unit, spec, ex, msgs):
+            rounds += 1
+            try:
+                text = _render(unit, spec['template'], ex)
+            except (rsx.LostAnchor, rsx.Unsupported):
+                break
+            open(f, 'w').write(text)
+            continue
+        break
     info = {'wall_s': round(wall, 2), 'smt_s': 0, 'file': f}
     try:
         d = json.loads(out)
